@@ -191,3 +191,33 @@ Theorem c02_emitted_is_response : forall c tr s oss l s' os ok b rs r,
 Proof. exact SrvC02b.c02_emitted_is_response. Qed.
 Print Assumptions c02_emitted_is_response.
 End Live.
+
+(** * Monitors over the observation sequence of a run (srv/SrvMonitors.v), extracted and evaluated on every harness
+    log, racing ones included.  [env_of tr] = the environment labels of the trace in order, [concat oss] = the
+    observations of the run in order. *)
+From JV Require SrvMonitors.
+Module Monitors.
+Import SrvModel SrvLemmas SrvMonitors.
+(* (a) for every params value, handler entries never outnumber the fed members carrying it (no hypothesis) *)
+Theorem c02_mon_start_once_sound : forall c tr s oss, run (init_of c) tr = Some (s, oss) ->
+  mon_start_once (env_of tr) (concat oss) = true.
+Proof. exact SrvMonitors.mon_start_once_sound. Qed.
+Print Assumptions c02_mon_start_once_sound.
+
+Theorem c02_start_count_le_fed : forall c tr s oss p, run (init_of c) tr = Some (s, oss) ->
+  count_bytes p (starts (concat oss)) <= count_bytes p (fed_params (env_of tr)).
+Proof. exact SrvMonitors.start_count_le_fed. Qed.
+Print Assumptions c02_start_count_le_fed.
+
+(* (a) with the harness's hypothesis that every fed member has its own params value: no token starts twice *)
+Theorem c02_mon_start_distinct_sound : forall c tr s oss, run (init_of c) tr = Some (s, oss) ->
+  unique_params (env_of tr) = true -> mon_start_distinct (env_of tr) (concat oss) = true.
+Proof. exact SrvMonitors.mon_start_distinct_sound. Qed.
+Print Assumptions c02_mon_start_distinct_sound.
+
+(* (b) scanning the observations in order, the handler returns of a params value never outnumber its entries *)
+Theorem c02_mon_gate_after_start_sound : forall c tr s oss, run (init_of c) tr = Some (s, oss) ->
+  mon_gate_after_start (env_of tr) (concat oss) = true.
+Proof. exact SrvMonitors.mon_gate_after_start_sound. Qed.
+Print Assumptions c02_mon_gate_after_start_sound.
+End Monitors.
